@@ -661,6 +661,9 @@ MUTANTS = [
     M("benign-I7-3-card-from-byte-pattern", ["C13", "C09", "C08"], base="I7-3", benign=True),
     M("I7-3-accepts-longer-text", ["C13"], (CD, "            [rank, suit] => {", "            [rank, suit, ..] => {"), base="I7-3"),
     M("I7-3-suit-from-first-byte", ["C13"], (CD, "let suit = Suit::try_from(char::from(suit)).ok()?;", "let suit = Suit::try_from(char::from(rank)).ok()?;"), base="I7-3"),
+    M("rank-pairs-retain-positive", ["C12", "C06", "C17"], (HRS, "            }\n        }\n\n        rank_pairs\n", "            }\n        }\n\n        rank_pairs.retain(|_, probability| *probability > 0.0);\n        rank_pairs\n")),
+    M("rank-pairs-remove-aces", ["C12"], (HRS, "            }\n        }\n\n        rank_pairs\n", "            }\n        }\n\n        rank_pairs.remove(&RankPair::Pocket(Rank::Ace));\n        rank_pairs\n")),
+    M("entries-through-default-hashmap", ["C15"], (FE, "            for (card_pair, probability) in player.card_pairs() {", "            let live: std::collections::HashMap<&CardPair, &f32> = player.card_pairs().iter().collect();\n            for (card_pair, probability) in live {")),
     M("benign-F3-3-computed-flush-weight", ["C01", "C07", "C08"], base="F3-3", benign=True),
     M("F3-3-unreversed", ["C01", "C07"], (MH, "1 << (12 - u8::from(card.rank()))", "1 << u8::from(card.rank())"), base="F3-3"),
     M("F3-3-off-by-one", ["C01", "C07"], (MH, "1 << (12 - u8::from(card.rank()))", "1 << (13 - u8::from(card.rank()))"), base="F3-3"),
